@@ -365,6 +365,30 @@ func main() {
 		env.Add(fmt.Sprintf("FCase [JLabelled 1%%nat (JBlock [JExpr (XLit (WNum 1)); JBreak 1%%nat])] %s %s %s %s", Clist(res[0].log), res[0].out, res[0].cv, Cbool(diff == "")),
 			fmt.Sprintf("%s => %s", src, res[0].String()), "miniJS+", true)
 	}
+	// pinned probes of `delete <identifier>` (finding class 3: eval-declared bindings are not deletable in otto)
+	for i, src := range []string{
+		`eval("var q1 = 1"); var r = delete q1; [r, typeof q1].join()`,
+		`function f(){ eval("var q2 = 1"); var r = delete q2; return [r, typeof q2].join(); } f()`,
+		`eval("function q3(){}"); var r = delete q3; [r, typeof q3].join()`,
+		`var q4 = 1; var r = delete q4; [r, typeof q4].join()`,
+		`q5 = 1; var r = delete q5; [r, typeof q5].join()`,
+		`function g(){ eval("function q6(){}"); var r = delete q6; return [r, typeof q6].join(); } g()`,
+		`(0,eval)("var q7 = 1"); var r = delete q7; [r, typeof q7].join()`,
+	} {
+		o := RunJS(otto.New(), src)
+		obs := "[]"
+		if o.Err == nil && o.Panic == nil {
+			parts := strings.Split(o.Val.String(), ",")
+			if len(parts) == 2 {
+				b := map[string]string{"true": "1", "false": "0"}[parts[0]]
+				t := map[string]string{"undefined": "0", "number": "1", "function": "2"}[parts[1]]
+				if b != "" && t != "" {
+					obs = "[" + b + "; " + t + "]"
+				}
+			}
+		}
+		env.Add(fmt.Sprintf("PinCase %d %s", i+1, obs), fmt.Sprintf("%s => %v", src, o.Val), "pinned-delete-identifier", true)
+	}
 	// generate every program first (one PRNG, deterministic), run them on otto in parallel, record them in order
 	type job struct {
 		full  *fulljs.Program
